@@ -37,6 +37,16 @@ NEEDED.update({
  "C17-A4": "dense vectors supplied as a column-major (Fortran-ordered) matrix",
  "C19-A4": "the configured scale factor varied (0.5, 2, −1, 0, −2) for the linear and identity transforms",
 })
+NEEDED.update({
+ "C03-B5": "the pipeline is first trained on an earlier snapshot of the data and then trained again, with the default options, on the data the expectations refer to",
+ "C05-B5": "cut-offs of exactly 0 on integer timestamps that start at 0 (12 % of the plain temporal cases, two directed ones)",
+ "C07-A5": "the prediction metric registered once more with an explicitly requested default of 0",
+ "C07-B5": "test collections keyed by the same two fields as the outputs, in the other order",
+ "C08-A5": "item vocabularies that are not in identifier order (the largest identifiers registered first, the others arriving with the records)",
+ "C11-A5": "one `TrainingOptions` object carrying an integer seed handed to two trainings, and asked for its generator twice",
+ "C18-A5": "the `implicit` bridge (ALS, BPR) among the components, and datasets of one shape (other users and items, the same numbers of both)",
+ "C18-B5": "the first call's options object handed to `Pipeline.train` again",
+})
 SUF = sys.argv[1] if len(sys.argv) > 1 else "3"
 rows = []
 for d in sorted(glob.glob(os.path.join(ROOT, "seeded", "*" + SUF))):
